@@ -97,3 +97,21 @@ pub fn blocks_label(n: u128) -> &'static str {
         _ => "blocks>5",
     }
 }
+
+/// Upper bound of the size of an FDT instance listing all of `objs` (used to keep sessions inside
+/// the domain "the session's default OTI can carry the FDT instance": in FullFDT mode publish()
+/// reports the problem, in ObjectsBeingTransferred mode the automatic publication fails silently).
+pub fn fdt_size_bound(s: &SenderSpec, objs: &[ObjSpec]) -> usize {
+    let esc = |x: &str| x.len() * 6 + 8;
+    let mut n = 1100 + s.groups.as_ref().map(|g| g.iter().map(|x| esc(x) + 40).sum::<usize>()).unwrap_or(0);
+    for o in objs {
+        n += 700 + esc(&o.location) * 3 + esc(&o.content_type) + o.etag.as_ref().map(|e| esc(e)).unwrap_or(0);
+        n += o.groups.as_ref().map(|g| g.iter().map(|x| esc(x) + 40).sum::<usize>()).unwrap_or(0);
+    }
+    n
+}
+
+pub fn session_can_carry_fdt(s: &SenderSpec, objs: &[ObjSpec]) -> bool {
+    let cap = s.oti.to_oti().map(|o| o.max_transfer_length()).unwrap_or(0);
+    fdt_size_bound(s, objs) <= cap
+}
